@@ -84,11 +84,22 @@ class Handler(object):
     return self.m.Pair(a='r|%s|n%d' % (p.a, self.req.nonce), b=-(p.b or 0))
 
 
+class Unserialisable(object):
+  """An argument no Thrift codec can write (not a str); carries the call id
+  for the harness only."""
+  __slots__ = ('sim_id',)
+
+  def __init__(self, sim_id):
+    self.sim_id = sim_id
+
+
 def call_id_of(method, args):
   """Calls carry their id in-band: 'c12|payload' or Pair(b=12)."""
   a = args[0] if args else None
   if isinstance(a, str):
     return a.split('|', 1)[0]
+  if isinstance(a, Unserialisable):
+    return a.sim_id
   b = getattr(a, 'b', None)
   if b is not None:
     return 'c%d' % b
